@@ -21,6 +21,7 @@ RULE = ("(a) vanilla subroutines the SDK really emits for random host programs (
         "every branch lands on the first instruction of the expansion of its old target (a target one past the end "
         "lands on the appended no-op or the new end)."
         ' Further direct families: branches / loop heads / forward jumps that target a gate itself with several operand registers in use; bystander registers that point at the electron on one path only; operand registers carried over from an earlier subroutine. Monitor on the transpiled run: every controlled rotation has virtual qubit 0 as control and another qubit as target. '
+        ' Programs may use register C15 themselves; debug listings are judged in memory and executed as decoded from their bytes. '
         "Non-trivial = the program contains a gate that expands to more "
         "than one NV instruction and a taken or untaken branch across a gate; distinct = distinct program + script.")
 ASSUMPTIONS = ["the vanilla and the NV run use the same executor class and backend; only the instruction stream differs",
